@@ -15,7 +15,7 @@ package innerring
 //@ ghost pred irIndex() int
 
 //@ callrule alphabet_membership_facts in github.com/nspcc-dev/neofs-node/pkg/innerring*::*
-//@   property C35
+//@   property C35 C38
 //@   callee *).IsAlphabet
 //@   defines result ==> isAlpha()
 //@ callrule alphabet_index_facts in github.com/nspcc-dev/neofs-node/pkg/innerring*::*
